@@ -107,19 +107,21 @@ def run(cx):
         "who-may-import / who-may-call rules over every function of transpile/; allow-list analysis of the constant evaluator's scope (helpers and dispatch tables followed, computed tables judged by their evaluated values) plus hostile expressions refused by evaluation; raise-type and exception-guard discipline; resolvers on unrepresentable literals, tuple arity and the cost guard (powers/shifts up to 10**10**8 with recording operators) by evaluation; regex structure analysis; module-state inventory. Termination time in general and implicit exception types elsewhere are not decided."
     )
     # ---- C11-IMPORTS -------------------------------------------------------------------------
-    r = cx.rule("C11-IMPORTS", "transpile/*.py import only ast, operator, re, typing, dataclasses, __future__ and siblings", floor=5)
+    r = cx.rule("C11-IMPORTS", "transpile/*.py import nothing that reaches the file system, processes, the network, the import machinery or the interpreter's internals: only standard-library modules outside that deny-list, and siblings", floor=5)
+    import sys as _sys
+    stdlib_ok = (set(getattr(_sys, "stdlib_module_names", ())) | ALLOWED_IMPORTS) - FORBIDDEN_ROOTS - {"multiprocessing", "threading", "asyncio", "concurrent", "ssl", "ftplib", "smtplib", "webbrowser", "pty", "signal", "glob", "fileinput", "sqlite3", "shelve", "dbm", "zipimport", "pkgutil", "site", "atexit", "gc", "zipfile", "tarfile", "socketserver", "xmlrpc", "mmap", "fcntl", "resource", "select", "selectors", "venv", "ensurepip", "distutils", "imp", "trace", "pdb", "cProfile", "profile", "timeit", "getpass", "os"}
     for m in mods:
         for n in ast.walk(m.tree):
             if isinstance(n, ast.Import):
                 for a in n.names:
                     root = a.name.split(".")[0]
-                    r.check(root in ALLOWED_IMPORTS, f"{m.rel.split('/')[-1]}/import[{a.name}]", (m, n), f"transpiler module imports {a.name}")
+                    r.check(root in stdlib_ok, f"{m.rel.split('/')[-1]}/import[{a.name}]", (m, n), f"transpiler module imports {a.name}")
             elif isinstance(n, ast.ImportFrom):
                 if n.level and n.level > 0:
                     r.ok(f"from .{n.module or ''}")
                     continue
                 root = (n.module or "").split(".")[0]
-                r.check(root in ALLOWED_IMPORTS or root == "Reduino", f"{m.rel.split('/')[-1]}/import[{n.module}]", (m, n), f"transpiler module imports from {n.module}")
+                r.check(root in stdlib_ok or root == "Reduino", f"{m.rel.split('/')[-1]}/import[{n.module}]", (m, n), f"transpiler module imports from {n.module}")
 
     # ---- C11-FORBIDDEN -----------------------------------------------------------------------
     r = cx.rule("C11-FORBIDDEN", "no eval/exec/compile/__import__/open/getattr-with-computed-name/dunder traversal/os|sys|subprocess use anywhere in the transpiler", floor=500)
